@@ -652,8 +652,11 @@ def expected_sched(c):
         gt = s["g"]
         if gt["k"] == "bsr":
             x, y, z = gt["axis"]
-            if abs(z) < 1e-6: ops.append(["rxy", gt["q"], gt["angle"], math.atan2(y, x), gt]); continue
-            if abs(x) < 1e-6 and abs(y) < 1e-6: ops.append(["rz", gt["q"], gt["angle"] * (1 if z > 0 else -1), None, gt]); continue
+            # the exporter's own tests use ATOL = 1e-7; between 5e-8 and 2e-6 the verdict is a matter of tolerance (such axes
+            # come out of earlier passes), so the expectation is only stated outside that band
+            if abs(z) < 5e-8: ops.append(["rxy", gt["q"], gt["angle"], math.atan2(y, x), gt]); continue
+            if abs(x) < 5e-8 and abs(y) < 5e-8: ops.append(["rz", gt["q"], gt["angle"] * (1 if z > 0 else -1), None, gt]); continue
+            if abs(z) < 2e-6 or (abs(x) < 2e-6 and abs(y) < 2e-6): return "ambiguous"
             return "error"
         if gt["k"] == "ctrl" and gt["g"]["k"] == "bsr":
             u = R.u1(gt["g"]["axis"], gt["g"]["angle"], gt["g"]["phase"])
